@@ -1,0 +1,30 @@
+//go:build verif
+
+/*
+Copyright 2025 The Dapr Authors
+Licensed under the Apache License, Version 2.0 (the "License");
+you may not use this file except in compliance with the License.
+You may obtain a copy of the License at
+    http://www.apache.org/licenses/LICENSE-2.0
+Unless required by applicable law or agreed to in writing, software
+distributed under the License is distributed on an "AS IS" BASIS,
+WITHOUT WARRANTIES OR CONDITIONS OF ANY KIND, either express or implied.
+See the License for the specific language governing permissions and
+limitations under the License.
+*/
+
+package dir
+
+import "sync/atomic"
+
+// VerifHandler, when set, is called at every point between two filesystem
+// steps of Write (build tag "verif" only). A verification harness uses it to
+// observe the on-disk state at that point or to stop Write there (by
+// panicking), which models the process dying between two steps.
+var VerifHandler atomic.Pointer[func(point string)]
+
+func verifPoint(point string) {
+	if h := VerifHandler.Load(); h != nil {
+		(*h)(point)
+	}
+}
